@@ -113,3 +113,14 @@ def listed_in_order(t, seed):
         r.shuffle(ax)
         out[f] = {a: t[f][a] for a in ax}
     return out
+
+
+def spelled(t, seed):
+    """The same table written the way a JSON / YAML file delivers it: links and / or pairs as lists instead of tuples
+    (a quarter each: tuples, list links, list pairs, both).  The spelling is not part of the topology."""
+    how = ["tuples", "list-links", "list-pairs", "lists"][int(seed) % 4]
+    if how == "tuples":
+        return t
+    lk = (lambda x: x if x is None else list(x)) if how != "list-pairs" else (lambda x: x)
+    pr = list if how != "list-links" else tuple
+    return {f: {a: pr(lk(x) for x in lr) for a, lr in d.items()} for f, d in t.items()}
